@@ -2,7 +2,8 @@
    bit 1: heap model (Model.Pipeline.mexec) = implementation
    bit 2: specification of the history (Spec.AbsPipeline.aexec: values only, concatenation,
           (priority, name) order, stage order) accepts the implementation's observation
-   bit 4: every conversion of the history ran a pipeline that owned all its objects (premise of
+   bit 4: every conversion of the history ran a pipeline that owned all its objects and was built for
+          the requested format (premise of
           C14_behaviour_partial / C14_history_partial)
    bit 8: the history composes at least two non-empty pipelines *)
 From Coq Require Import NArith ZArith List Bool.
@@ -45,16 +46,17 @@ Definition composes (o : op) : bool :=
 Definition ent_nonempty (e : str * rent nat) : bool :=
   match snd e with RCall d => Nat.ltb 0 (def_size d) | RSeq ds => existsb (fun d => Nat.ltb 0 (def_size d)) ds | RObj _ => false end.
 
-(* format, operand pipelines, resolver table (identifier -> operand index | definition of a callable
-   or YAML file), backend pipeline, output-format pipeline, rules, history, implementation's result *)
-Definition hist_case := (fmt * list pdef * list (str * rent nat) * pdef * pdef * list rule * list op * outcome result)%type.
+(* operand pipelines, resolver table (identifier -> operand index | definition of a callable or YAML
+   file), backend pipeline, output-format pipelines of default/test/state, rules, history,
+   implementation's result *)
+Definition hist_case := (list pdef * list (str * rent nat) * pdef * (pdef * pdef * pdef) * list rule * list op * outcome result)%type.
 Definition judge_hist (c : hist_case) : N :=
-  let '(f, defs, tn, bkd, outd, rules, prog, impl) := c in
-  let m := mexec f defs tn bkd outd rules prog in
-  let a := aexec f (map adef defs) tn (apipe_of bkd) (apipe_of outd) rules prog in
+  let '(defs, tn, bkd, (od, ot, os), rules, prog, impl) := c in
+  let m := mexec defs tn bkd od ot os rules prog in
+  let a := aexec (map adef defs) tn (apipe_of bkd) (by_fmt (apipe_of od) (apipe_of ot) (apipe_of os)) rules prog in
   bits (outcome_cmp (result_cmp dict_eqb) (fst m) impl)
        (outcome_cmp (result_cmp dict_sim) a impl)
        (snd m)
        (existsb composes prog &&
-        Nat.leb 2 (length (filter (fun d => Nat.ltb 0 (def_size d)) (defs ++ [bkd; outd]))
+        Nat.leb 2 (length (filter (fun d => Nat.ltb 0 (def_size d)) (defs ++ [bkd; od; ot; os]))
                    + length (filter ent_nonempty tn))).
